@@ -216,6 +216,17 @@ def lin(e, env=None):
                     return lin(v, env)
                 finally:
                     env._busy.discard(e.id)
+        # module-level numeric / timedelta constants (COMMIT_THRESHOLD = 50, MAX_AGE = timedelta(seconds=10))
+        if env.fi is not None and env.prog is not None and e.id not in env.fi.params and not local_defs(env.fi, e.id) and e.id not in env._busy:
+            r = env.prog.lookup(env.fi, e.id)
+            if isinstance(r, tuple) and r[0] == "const":
+                env._busy.add(e.id)
+                try:
+                    return lin(r[2], Env(None, env.prog))
+                except NonAffine:
+                    pass
+                finally:
+                    env._busy.discard(e.id)
         return Form.atom(e.id)
     if isinstance(e, ast.Attribute):
         if e.attr in ("start", "end", "duration"):
